@@ -211,10 +211,32 @@ impl<R: Read + Seek> WdtReader<R> {
         let mut has_mphd = false;
         let mut has_main = false;
 
+        // Total stream length, so chunk sizes can be checked before they are trusted
+        let start = self.reader.stream_position()?;
+        let stream_len = self.reader.seek(SeekFrom::End(0))?;
+        self.reader.seek(SeekFrom::Start(start))?;
+
         // Read chunks until EOF
         loop {
             match self.read_chunk_header() {
                 Ok((magic, size)) => {
+                    // A known chunk cannot be larger than what is left of the stream
+                    // (unknown chunks are only skipped, a truncated one just ends the file)
+                    if matches!(
+                        &magic,
+                        b"REVM" | b"DHPM" | b"NIAM" | b"DIAM" | b"OMWM" | b"FDOM"
+                    ) {
+                        let remaining = stream_len.saturating_sub(self.reader.stream_position()?);
+                        if size as u64 > remaining {
+                            return Err(Error::Io(std::io::Error::new(
+                                std::io::ErrorKind::UnexpectedEof,
+                                format!(
+                                    "chunk size {size} exceeds the {remaining} bytes left in the file"
+                                ),
+                            )));
+                        }
+                    }
+
                     match &magic {
                         b"REVM" => {
                             wdt.mver = MverChunk::read(&mut self.reader, size)?;
